@@ -8,7 +8,7 @@ CONSTANTS
   MaxEvents = 1
   MaxPerTick = 1
   DrainAfterQuit = FALSE
-  ShowBeforeStop = TRUE
+  AfterCancel = "queued"
 INVARIANTS DisplayedIsPartOfSent NoticesAlwaysDisplayed
 PROPERTIES EndsAfterQuit
 CHECK_DEADLOCK FALSE
